@@ -7,13 +7,15 @@
   code — computes exactly these values and fails exactly where they do not exist.  The grouping
   of operators is decided by the parser: the facts about its precedence table are obligations in
   `TwProofs.Facts` (levels, precedences, the `parseExpression` call sites of F5); the theorems
-  below state the parser's one-step behaviour the property names (the right operand is parsed at
+  below state the parser's one-step behaviour the property names and, for identifiers, binary
+  operators and parentheses, the full round trip `parse (print tree) = tree` (the right operand is parsed at
   the operator's own level, the ternary's else part at LOWEST, an assignment's value at LOWEST,
   the loop stops at a lower or equal level), and kernel-evaluated instances of whole renders.
 -/
 import TwModel
 import TwSpec
 import TwProofs.Lemmas.SpecSim
+import TwProofs.Lemmas.PrattRoundTrip
 
 namespace Tw.C01
 open Tw TwSpec
@@ -107,6 +109,42 @@ theorem parentheses_make_no_node (pe : Nat → PS → Expr × PS) (pl : TT → P
   rw [hlp]
   simp only []
   rw [if_pos hclose]
+
+/-! ### the Pratt parser inverts the printer (identifiers, binary operators, parentheses) -/
+
+/-- **round trip**: print a tree of identifiers and binary operators with the parentheses the
+    precedence order requires (operators of equal level group to the left) plus any redundant
+    pairs; the model's `parseExpression(LOWEST)` returns exactly that tree from every parser
+    state, with enough fuel, stops on the expression's last token and records no error -/
+theorem parse_of_print (lp rp : Token) (hlp : lp.ty = .LPAREN) (hrp : rp.ty = .RPAREN) (extra : BE → Bool)
+    (e : BE) (hok : e.ok) (k : List Token) (hk : NoIll k) (hstop : StopR LOWEST k) :
+    ∃ N, ∀ f, N ≤ f → ∀ p : PS,
+      parseExpression f LOWEST (p.withToks (showAt lp rp extra (LOWEST + 1) e ++ k)) =
+        (e.toExpr, p.withToks (lastTok (showAt lp rp extra (LOWEST + 1) e) :: k)) :=
+  parse_print lp rp hlp hrp extra e hok k hk hstop
+
+/-- redundant parentheses never change the parse -/
+theorem redundant_parentheses_do_not_matter (lp rp : Token) (hlp : lp.ty = .LPAREN) (hrp : rp.ty = .RPAREN)
+    (extra1 extra2 : BE → Bool) (e : BE) (hok : e.ok) (k : List Token) (hk : NoIll k) (hstop : StopR LOWEST k) :
+    ∃ N, ∀ f, N ≤ f → ∀ p : PS,
+      (parseExpression f LOWEST (p.withToks (showAt lp rp extra1 (LOWEST + 1) e ++ k))).1 =
+      (parseExpression f LOWEST (p.withToks (showAt lp rp extra2 (LOWEST + 1) e ++ k))).1 :=
+  redundant_parentheses_irrelevant lp rp hlp hrp extra1 extra2 e hok k hk hstop
+
+/-- non-vacuity: `a - b - c * d` is the left-nested tree, printed without parentheses -/
+example :
+    let t (ty : TT) (s : String) : Token := { ty := ty, lit := b s, pos := {} }
+    showAt (t .LPAREN "(") (t .RPAREN ")") (fun _ => false) (LOWEST + 1)
+      (.bin (t .SUB "-") (.bin (t .SUB "-") (.ident (t .IDENT "a")) (.ident (t .IDENT "b")))
+        (.bin (t .MUL "*") (.ident (t .IDENT "c")) (.ident (t .IDENT "d")))) =
+    [t .IDENT "a", t .SUB "-", t .IDENT "b", t .SUB "-", t .IDENT "c", t .MUL "*", t .IDENT "d"] := by decide
+
+/-- … and `a - (b - c)` needs its parentheses -/
+example :
+    let t (ty : TT) (s : String) : Token := { ty := ty, lit := b s, pos := {} }
+    showAt (t .LPAREN "(") (t .RPAREN ")") (fun _ => false) (LOWEST + 1)
+      (.bin (t .SUB "-") (.ident (t .IDENT "a")) (.bin (t .SUB "-") (.ident (t .IDENT "b")) (.ident (t .IDENT "c")))) =
+    [t .IDENT "a", t .SUB "-", t .LPAREN "(", t .IDENT "b", t .SUB "-", t .IDENT "c", t .RPAREN ")"] := by decide
 
 /-! ### whole renders, evaluated in the kernel (tests of the composed pipeline, labelled as such) -/
 
